@@ -130,9 +130,17 @@ def corpus_cases(ifaces):
 
 
 def cases(tier, rng, ifaces):
-    out = []
     names = ['echo', 't1', 'a1', 'g1'] + sorted(n for n in ifaces if n.startswith('r'))
-    n = 2500 if tier == 'quick' else 30000
+    return compound_cases(rng, ifaces, names, 2500 if tier == 'quick' else 30000) + payload_cases(rng, tier)
+
+
+def fresh_cases(tier, rng, ifaces):
+    """thorough tier: the same stream over the run's fresh declaration sets"""
+    return compound_cases(rng, ifaces, sorted(ifaces), 4000)
+
+
+def compound_cases(rng, ifaces, names, n):
+    out = []
     for i in range(n):
         iface = ifaces[rng.choice(names)]
         nm = rng.choice([1, 1, 2, 3])
@@ -158,7 +166,7 @@ def cases(tier, rng, ifaces):
             op = f'PROC {iface.name} 256 {hx(stream)} {",".join(map(str, sizes))}' + (' pend=1' if rng.random() < 0.3 else '')
             meta['kind'] = 'PROC-compound'
         out.append(Case(op, oracle, meta))
-    return out + payload_cases(rng, tier)
+    return out
 
 
 def payload_cases(rng, tier):
